@@ -21,6 +21,7 @@ type nameFuncs struct {
 	other   facts.Value
 	langs   []facts.Value
 	tagType types.Type
+	extra   []facts.Value // further language tags that occur as table keys
 }
 
 func isString(t types.Type) bool {
@@ -54,6 +55,30 @@ func (e *Env) nameFunctions(rule string) *nameFuncs {
 	nf.japan = facts.Value{Kind: facts.VObj, Obj: ja, Type: ja.Type()}
 	nf.other = facts.Value{Kind: facts.VOther, Type: tag.Type()}
 	nf.langs = []facts.Value{nf.english, nf.japan, nf.other}
+	// every other language tag that occurs as a key of a names table is a tag "whose language is neither English
+	// nor Japanese" with an entry of its own: it joins the language domain (expected: the English names)
+	seenTag := map[types.Object]bool{en: true, ja: true}
+	var walkTags func(t *facts.Table, depth int)
+	walkTags = func(t *facts.Table, depth int) {
+		if depth > 6 {
+			return
+		}
+		for _, ent := range t.Entries {
+			if ent.Key.Kind == facts.VObj && ent.Key.Obj != nil && types.Identical(ent.Key.Obj.Type(), tag.Type()) && !seenTag[ent.Key.Obj] {
+				seenTag[ent.Key.Obj] = true
+				nf.extra = append(nf.extra, facts.Value{Kind: facts.VObj, Obj: ent.Key.Obj, Type: ent.Key.Obj.Type()})
+			}
+			if ent.Val.Kind == facts.VTable && ent.Val.T != nil {
+				walkTags(ent.Val.T, depth+1)
+			}
+		}
+	}
+	for _, t := range e.F.AllTabs {
+		if t.Pkg == pk {
+			walkTags(t, 0)
+		}
+	}
+	sort.Slice(nf.extra, func(i, j int) bool { return nf.extra[i].Obj.Name() < nf.extra[j].Obj.Name() })
 	sc := pk.Types.Scope()
 	for _, n := range sc.Names() {
 		fn, ok := sc.Lookup(n).(*types.Func)
@@ -98,7 +123,7 @@ func langName(v facts.Value) string {
 func c18(e *Env) {
 	c := e.C
 	c.Level = "proof"
-	c.Explanation = "Each exported function of v3/report/names is translated into a finite-map expression over the name tables (syntax-directed; anything outside the look-up fragment is UNDECIDED) and tabulated over every declared constant of its metric type plus the zero and an out-of-range representative, times {language.English, language.Japanese, any other tag}. Non-emptiness, per-metric distinctness, the Unknown name for undefined values, equality of Modified and base value names on shared codes, and equality with English for every other tag are checked cell by cell. Table well-formedness (no duplicate language keys, both languages present) is checked on the table model."
+	c.Explanation = "Each exported function of v3/report/names is translated into a finite-map expression over the name tables (syntax-directed; anything outside the look-up fragment is UNDECIDED) and tabulated over every declared constant of its metric type plus the zero and an out-of-range representative, times {language.English, language.Japanese, any other tag, and every further language tag that occurs as a key of a names table}. Non-emptiness, per-metric distinctness, the Unknown name for undefined values, equality of Modified and base value names on shared codes, and equality with English for every other tag are checked cell by cell. Table well-formedness (no duplicate language keys, both languages present) is checked on the table model."
 	c.Trusted = []string{"go/types", "summary translation and its Go map semantics (facts/summary.go)", "golang.org/x/text/language: English and Japanese are distinct comparable values; any other tag is unequal to both"}
 	c.Assumptions = []string{"regional variants of English/Japanese are left unspecified by the property", "name tables are not modified after initialisation (rule table-immutability, shared with C15/C16)"}
 	c.Floor("title", 29*3)
@@ -127,6 +152,16 @@ func c18(e *Env) {
 			} else {
 				c.Check(s != "", "title", cons, pos, quote(s), "empty title")
 			}
+		}
+		for _, l := range nf.extra {
+			r := e.F.Eval(fn, l)
+			s, ok := stringOf(r)
+			cons := fmt.Sprintf("%s(%s)", fn.Name(), langName(l))
+			if !ok {
+				c.Undecided("title", cons, pos, r.String())
+				continue
+			}
+			c.Check(s == eng && s != "", "title", cons, pos, "a language that is neither English nor Japanese: the English title "+quote(s), fmt.Sprintf("language tag %s yields %q, English is %q", langName(l), s, eng))
 		}
 	}
 
@@ -187,6 +222,16 @@ func c18(e *Env) {
 						c.Check(s != "" && s == unknownJa, "value-name", cons, pos, quote(s), fmt.Sprintf("Japanese name of an undefined value is %q (elsewhere %q)", s, unknownJa))
 					}
 				}
+			}
+			for _, l := range nf.extra {
+				r := e.F.Eval(fn, v, l)
+				s, ok := stringOf(r)
+				cons := fmt.Sprintf("%s(%s, %s)", fn.Name(), v, langName(l))
+				if !ok {
+					c.Undecided("value-name", cons, pos, r.String())
+					continue
+				}
+				c.Check(s == perLang[0], "value-name", cons, pos, "a language that is neither English nor Japanese: the English name "+quote(s), fmt.Sprintf("language tag %s yields %q, English is %q", langName(l), s, perLang[0]))
 			}
 			if defined && !bad {
 				definedCells = append(definedCells, defCell{fn, v, perLang[0], perLang[1]})
